@@ -404,11 +404,16 @@ func newCmap12(cm tables.CmapSubtable12) cmap12 { return sanitizeGroups(cm.Group
 
 // sanitizeGroups removes, in place, the groups which do not describe a (non empty) range
 // of valid runes, and clamps the other ones to valid runes.
+// The groups must be sorted and must not overlap (Lookup bisects them): a group which does not
+// start after the previous one is removed as well.
 func sanitizeGroups(groups []tables.SequentialMapGroup) []tables.SequentialMapGroup {
 	const maxRune = 0x10FFFF
 	out := groups[:0]
 	for _, g := range groups {
 		if g.EndCharCode < g.StartCharCode || g.StartCharCode > maxRune {
+			continue
+		}
+		if len(out) != 0 && g.StartCharCode <= out[len(out)-1].EndCharCode {
 			continue
 		}
 		if g.EndCharCode > maxRune {
